@@ -11,9 +11,10 @@ import (
 )
 
 // c13mgr: the per-host table (BucketManager) in real time.
-//   A. a host that keeps being asked for stays in the table across clean-up rounds: the penalty imposed on
-//      it is honoured by every later waiter (waiters arrive more often than the clean-up period);
-//   B. more hosts than the table may hold, most of them penalised: the table stays within its bound.
+//
+//	A. a host that keeps being asked for stays in the table across clean-up rounds: the penalty imposed on
+//	   it is honoured by every later waiter (waiters arrive more often than the clean-up period);
+//	B. more hosts than the table may hold, most of them penalised: the table stays within its bound.
 //
 // usage: unit-verif c13mgr <out-trace.ndjson> <rounds>
 func init() { drivers["c13mgr"] = c13mgr }
